@@ -241,6 +241,62 @@ def _replay_url(v):
 
 BOUNDED_REPLAY = {"sanitize_url_small_urls": _replay_url}
 
+
+# ------------------------------------------------------------------------------------------------- SanitizationConfig.extend / from_config: what the user adds IS sanitized, nothing configured before is lost
+SAN = "schemathesis.core.output.sanitization:"
+_KEYS0 = frozenset({"authorization", "x-api-key"})
+_MARK0 = frozenset({"token", "secret"})
+
+
+class _Cfg(D):
+    def make(self, it, name, idx=()):
+        from pyvc.values import VObj
+
+        return VObj(it.resolve_class(SAN + "SanitizationConfig"), {"keys_to_sanitize": _KEYS0, "sensitive_markers": _MARK0, "replacement": "[Filtered]"})
+
+
+_NEWK = OneOf(Global("schemathesis.core:NOT_SET"), Choice(["X-Tenant-Secret"], ["a", "B"], []))
+R.contract(
+    SAN + "SanitizationConfig.extend",
+    prop="C15",
+    args={"self": _Cfg(), "keys_to_sanitize": _NEWK, "sensitive_markers": _NEWK},
+    raises=[],
+    ensures={
+        # user-configured keys / markers are matched case-insensitively like the built-in ones (stored lower-cased) and ADD to what was configured before
+        "every_added_key_is_sanitized_from_now_on": "all(k.lower() in result.keys_to_sanitize for k in (keys_to_sanitize if is_instance(keys_to_sanitize, 'list') else [])) and "
+                                                    "all(m.lower() in result.sensitive_markers for m in (sensitive_markers if is_instance(sensitive_markers, 'list') else []))",
+        "nothing_configured_before_is_lost": "all(k in result.keys_to_sanitize for k in self.keys_to_sanitize) and all(m in result.sensitive_markers for m in self.sensitive_markers) and result.replacement == self.replacement",
+        "nothing_else_is_added": "length(result.keys_to_sanitize) <= length(self.keys_to_sanitize) + (length(keys_to_sanitize) if is_instance(keys_to_sanitize, 'list') else 0) and "
+                                 "length(result.sensitive_markers) <= length(self.sensitive_markers) + (length(sensitive_markers) if is_instance(sensitive_markers, 'list') else 0)",
+        "the_current_configuration_object_is_not_modified": "self.keys_to_sanitize == old(self.keys_to_sanitize) and self.sensitive_markers == old(self.sensitive_markers)",
+    },
+    bounded_note="three lists of new keys / markers",
+)
+
+
+class _CfgClass(D):
+    def make(self, it, name, idx=()):
+        return it.resolve_class(SAN + "SanitizationConfig")
+
+
+R.contract(
+    SAN + "SanitizationConfig.from_config",
+    prop="C15",
+    args={"cls": _CfgClass(), "base_config": _Cfg(), "replacement": OneOf(Global("schemathesis.core:NOT_SET"), Str), "keys_to_sanitize": _NEWK, "sensitive_markers": _NEWK},
+    raises=[],
+    ensures={
+        # `configure(...)` REPLACES the sets it is given (lower-cased, so that matching stays case-insensitive) and keeps the ones it is not given
+        "given_sets_replace_and_are_lower_cased": "implies(is_instance(keys_to_sanitize, 'list'), result.keys_to_sanitize == frozenset_of([k.lower() for k in keys_to_sanitize])) and "
+                                                  "implies(is_instance(sensitive_markers, 'list'), result.sensitive_markers == frozenset_of([m.lower() for m in sensitive_markers]))",
+        "what_is_not_given_is_kept": "implies(not is_instance(keys_to_sanitize, 'list'), result.keys_to_sanitize == base_config.keys_to_sanitize) and "
+                                     "implies(not is_instance(sensitive_markers, 'list'), result.sensitive_markers == base_config.sensitive_markers) and "
+                                     "implies(not is_text(replacement), result.replacement == base_config.replacement) and implies(is_text(replacement), result.replacement == replacement)",
+    },
+    bounded_note="three lists of keys / markers",
+)
+R.spec_funcs["frozenset_of"] = lambda it, xs: frozenset(xs)
+R.spec_funcs["is_text"] = lambda it, v: isinstance(v, str) or type(v).__name__ == "SStr"
+
 LEVEL_TEXT = ("Deductive for sanitize_value (exact redaction set, frame) and prepare_request (routing through the sanitizers iff on), over mappings with up to 2 "
               "symbolic keys (labelled bounded); sanitize_url by exhaustive enumeration of small URLs on the real function.")
 LEVEL_NOTE = "Trusted: urllib.parse, str.lower model, requests.Request (E4), pyvc semantics (E9). The VCR `command:` field (raw argv) is not covered."
